@@ -31,6 +31,7 @@ type gsession struct {
 	sq      pfcpx.QER
 	nextPDR uint16
 	live    bool
+	noDl    bool // the downlink PDRs and FARs have been removed: the session is only deleted from here on
 }
 
 // Gen is the online generator: it needs the agent's answers (UP SEIDs) to continue.
@@ -552,8 +553,27 @@ func (g *Gen) modifyKind(s *gsession, forced int) {
 		kind = forced
 	}
 
+	if s.noDl {
+		w.Heartbeat(s.peer)
+		return
+	}
+
 	if len(s.bearers) == 0 {
 		kind = 3
+	}
+
+	// now and then the downlink half of the session goes (with it the PDRs an address of the pool was allocated for)
+	if forced < 0 && len(s.bearers) > 0 && g.R.Intn(30) == 0 {
+		for _, b := range s.bearers {
+			r.RPDR = append(r.RPDR, b.dlPDR)
+			r.RFAR = append(r.RFAR, b.dlFAR)
+		}
+
+		s.noDl = true
+		g.Stats["mod_rmdl"]++
+		w.Mod(s.peer, r)
+
+		return
 	}
 
 	var removed *bearer
